@@ -28,9 +28,9 @@ PlainSeq(s) == [k \in 1..Len(s) |-> Plain(s[k])]
 C07Clauses(e) ==
   LET dm == C07Demand(e.A, e.op) IN
   <<  <<"no-panic", e.panic = "">>,
-      <<"copy-or-reordering-is-deep-equal", dm = "equal" => e.deq12 /\ e.deq21>>,
-      <<"plain-edit-is-not-deep-equal", dm = "different" => ~e.deq12 /\ ~e.deq21>>,
-      <<"symmetric", e.deq12 = e.deq21>>,
+      <<"copy-or-reordering-is-deep-equal", dm = "equal" => e.deq12 /\ e.deq21 /\ e.deq12f /\ e.deq21f>>,
+      <<"plain-edit-is-not-deep-equal", dm = "different" => ~e.deq12 /\ ~e.deq21 /\ ~e.deq12f /\ ~e.deq21f>>,
+      <<"symmetric", e.deq12 = e.deq21 /\ e.deq12f = e.deq21f>>,
       <<"self-equal", e.selfeq>>,
       <<"copy-deep-equal", e.copy.deq12 /\ e.copy.deq21>>,
       <<"copy-identical-gedcom", e.copy.strsame>>,
@@ -40,6 +40,7 @@ C07Clauses(e) ==
 C07Model(e) ==
   LET t2 == ApplyOp(e.A, e.op) IN
   e.panic = "" => /\ e.deq12 = DeepEq(AsIs, e.A, t2) /\ e.deq21 = DeepEq(AsIs, t2, e.A)
+                  /\ e.deq12f = e.deq12 /\ e.deq21f = e.deq21
 \* would every clause hold if DATE equality were an equivalence (and does the as-is model explain what was seen)
 C07Mechanism(e) ==
   LET t2 == ApplyOp(e.A, e.op)  dm == C07Demand(e.A, e.op)
